@@ -44,11 +44,17 @@ def all_harnesses():
     for (p, d1, d2, fa, fb) in ((0, 0, 0, 2, 1), (2, 1, 2, 0, 0), (1, 0, 1, 1, 1), (2, 2, 2, 0, 0), (1, 1, 1, 0, 1), (0, 0, 0, 1, 2)):
         add(f"c19_b22_p{p}_d{d1}{d2}_a{fa}_b{fb}", f"crate::c19::b22(2, {p}, {d1}, {d2}, {fa}, {fb})", "derive sync 2x2",
             {"arity": "2x2", "cap": 2, "prefill": p, "drain": [d1, d2], "fa": fa, "fb": fb}, core=(p != 1))
+    import itertools
     for cap in (2, 3):
         for f in range(1, cap + 1):
             for tp in range(0, f):
-                hs.append(Harness(f"c19_b11t_c{cap}_f{f}_t{tp}", f"crate::c19::b11t({cap}, {f}, {tp})", unwind=12, unit="derive sync_tag 1x1",
-                                  shape={"arity": "1x1 sync_tag", "cap": cap, "f": f, "tagpos": tp}, core=(cap == 2), timeout=900))
+                for par in itertools.product((False, True), repeat=f):
+                    pn = "".join("1" if x else "0" for x in par)
+                    h = Harness(f"c19_b11t_c{cap}_f{f}_t{tp}_p{pn}", f"crate::c19::b11t({cap}, {f}, {tp}, &[{', '.join(str(x).lower() for x in par)}])",
+                                unwind=12, unit="derive sync_tag 1x1",
+                                shape={"arity": "1x1 sync_tag", "cap": cap, "f": f, "tagpos": tp, "odd": pn}, core=(cap == 2 and (f == 1 or pn in ("10", "01"))), timeout=900)
+                    h.foldable = False
+                    hs.append(h)
     for ga in (False, True):
         for gb in (False, True):
             for la in (0, 1):
